@@ -9,15 +9,19 @@ from ..interp import Interp, Enum, Sym, Ref, Struct, Unsupported, eq_handler, un
 PID = "C14"
 LEVEL = "other"
 EXPLANATION = (
-    "Static analysis over MIR of the host-filter middleware. Decided: R1 in HostFilter::call the inner service is called "
-    "only when an authority could be determined (Some arm of Authority::from_http_request) and the filter is disabled or "
-    "recognize() returned true; the other exits answer malformed() (400) / host_not_allowed() (403) and never call the "
-    "inner service; R2 the port-matching table of WhitelistedHosts::recognize, extracted over {Any, Default, Fixed a} x "
-    "{Any, Default, Fixed b}, equals: entry `*` allows every port; both default allows; fixed allows iff equal; everything "
-    "else denies; a host the router does not recognise is denied; R3 the authority decision table of from_http_request "
-    "over {absent, parsed, unparsable}^2: both parsed -> that authority iff equal (else none), exactly one parsed -> that "
-    "one, none parsed -> none; R4 default_port: http/ws -> 80, https/wss -> 443, and a port equal to the scheme's default "
-    "is normalised to Default. NOT decided: wildcard/host matching (route-recognizer) and URI parsing for all strings."
+    'Static analysis over MIR of the host-filter middleware. Decided: R1 in HostFilter::call the inner service is '
+    'called only when an authority could be determined (Some arm of Authority::from_http_request) and the filter is '
+    'disabled or recognize() returned true; the other exits answer malformed() (400) / host_not_allowed() (403) and '
+    'never call the inner service; R2 the port-matching table of WhitelistedHosts::recognize, extracted over {Any, '
+    'Default, Fixed a} x {Any, Default, Fixed b}, equals: entry `*` allows every port; both default allows; fixed '
+    'allows iff equal; everything else denies; a host the router does not recognise is denied; R3 the authority '
+    'decision table of from_http_request over {absent, parsed, unparsable}^2: both parsed -> that authority iff equal '
+    '(else none), exactly one parsed -> that one, none parsed -> none; R4 default_port: http/ws -> 80, https/wss -> '
+    "443, and a port equal to the scheme's default is normalised to Default. R5 every Authority is built by the one "
+    'normalising parser (single construction site) and an enabled HostFilterLayer always stores Some(list) (None '
+    'means disabled to HostFilter::call); R1 accepts both spellings of the allow decision (Option::is_none_or, '
+    'explicit match on self.filter). NOT decided: wildcard/host matching (route-recognizer) and URI parsing for all '
+    'strings.'
 )
 RULE_TEXT = "instances = gate dominance in HostFilter::call, rows of the three extracted decision tables"
 TRUSTED = ["rustc MIR", "route-recognizer", "http::Uri parsing", "tower Service contract"]
